@@ -230,7 +230,6 @@ class QSim:
             self.remaining -= 1
             if self.loop.run_one():
                 ran += 1
-                self._check_boundary()
         return ran
 
     def run_to_idle(self, cap=3000):
@@ -248,6 +247,9 @@ class QSim:
 
     def check_idle(self):
         self.stats["idle_points"] += 1
+        # (qsize is compared at idle points only: between handles an item may legitimately be in transit from the
+        # queue to a block - C20 says nothing about qsize, only about what is marked and when join() returns)
+        self._check_boundary()
         for j in self.joiners:
             if j["state"] == "active" and j["zero_seen"]:
                 self.violate("join_stuck", "idle: every item put so far was taken and its block exited, but join() has not returned")
